@@ -208,7 +208,7 @@ def block_verdict(b):
     return False, None
 
 
-def run_once(binary, root, j, yseed, extra=()):
+def run_once(binary, root, j, yseed, extra=(), timeout=300):
     for f in ("tfel-check.log",):
         try:
             os.remove(os.path.join(root, f))
@@ -216,13 +216,25 @@ def run_once(binary, root, j, yseed, extra=()):
             pass
     env = dict(os.environ)
     env["C52_YIELD_SEED"] = str(yseed)
-    p = subprocess.run([binary, "-j", str(j)] + list(extra), cwd=root, env=env, stdout=subprocess.PIPE,
-                       stderr=subprocess.PIPE, timeout=600)
+    # own process group: a hung run is killed with the commands it started
+    p = subprocess.Popen([binary, "-j", str(j)] + list(extra), cwd=root, env=env, stdout=subprocess.PIPE,
+                         stderr=subprocess.PIPE, start_new_session=True)
+    try:
+        _, err = p.communicate(timeout=timeout)
+        rc = p.returncode
+    except subprocess.TimeoutExpired:
+        import signal
+        try:
+            os.killpg(p.pid, signal.SIGKILL)
+        except OSError:
+            pass
+        _, err = p.communicate()
+        rc = "timeout"
     try:
         text = open(os.path.join(root, "tfel-check.log"), errors="replace").read()
     except OSError:
         text = ""
-    return p.returncode, text, p.stderr.decode(errors="replace")[-2000:]
+    return rc, text, err.decode(errors="replace")[-2000:]
 
 
 def hexline(l):
